@@ -104,7 +104,7 @@ package limit
 //@   flag nolock
 //@   requires lim.store != nil
 //@   ghost at entry: stUp = false
-//@   ghost at begin loop 0: stUp = redisUp[lim.store]
+//@   ghost at begin loop 0: stUp = redisUp[lim.store] && (lim.store.Type == redis.NodeType || lim.store.Type == redis.ClusterType)
 //@   ensures !lim.monitorStarted && implies(stUp, lim.redisAlive == 1)
 //@   loop 0: modifies redisUp, stUp
 //@   loop 0: invariant !stUp && lim.store != nil
